@@ -238,31 +238,63 @@ func contentTypeCodecInverse(c *core.Ctx) {
 				}
 			}
 		}
-		ast.Inspect(wrh.Body, func(x ast.Node) bool {
-			as, ok := x.(*ast.AssignStmt)
-			if !ok || len(as.Lhs) != 1 || len(as.Rhs) != 1 {
-				return true
-			}
-			ie, ok := as.Lhs[0].(*ast.IndexExpr)
-			if !ok || astx.ConstObj(info, ie.Index) != ctConst {
-				return true
-			}
-			for _, call := range astx.Calls(as.Rhs[0]) {
-				if f := astx.CalleeFunc(info, call); f != nil && p.Decl(f) != nil {
-					nameFn = f
+		// client side: the value stored under Content-Type in WriteRequestHeader, either built by a
+		// first-party helper (then its returns are the uses) or in place (then the paths to the store are)
+		var nUses []prefixUse
+		nameDesc := ""
+		nameResolved := false
+		{
+			w := astx.NewWalker(info, wrh.Body)
+			w.OnNode = func(s *astx.State, n ast.Node) bool {
+				as, ok := n.(*ast.AssignStmt)
+				if !ok || len(as.Lhs) != 1 || len(as.Rhs) != 1 {
+					return false
 				}
+				ie, ok := as.Lhs[0].(*ast.IndexExpr)
+				if !ok || astx.ConstObj(info, ie.Index) != ctConst {
+					return false
+				}
+				val := astx.Unparen(as.Rhs[0])
+				if cl, isLit := val.(*ast.CompositeLit); isLit && len(cl.Elts) == 1 {
+					val = astx.Unparen(cl.Elts[0])
+				}
+				if id, isID := val.(*ast.Ident); isID {
+					if rhs := s.LastAssigned(info, astx.ObjOf(info, id)); rhs != nil {
+						if _, isCall := astx.Unparen(rhs).(*ast.CallExpr); isCall {
+							val = astx.Unparen(rhs)
+						}
+					}
+				}
+				if call, isCall := val.(*ast.CallExpr); isCall {
+					if f := astx.CalleeFunc(info, call); f != nil && p.Decl(f) != nil {
+						nameFn = f
+						nameResolved = true
+						nameDesc = f.Name()
+						return false
+					}
+				}
+				unknowns := 0
+				pre, _ := s.ConstStringOnPath(info, val, func(ast.Expr) { unknowns++ })
+				nameResolved = true
+				nameDesc = "in place"
+				if unknowns != 1 {
+					c.Undecided(pname+"/name-return", as.Pos(), "Content-Type value %s is not prefix+name", types.ExprString(val))
+					return false
+				}
+				nUses = append(nUses, prefixUse{prefix: pre, hasName: true, pos: as, facts: factsOf(s)})
+				return false
 			}
-			return true
-		})
-		if codecFn == nil || nameFn == nil {
+			w.Walk()
+		}
+		if codecFn == nil || !nameResolved {
 			c.Unresolved(pname+"/helpers", "codec-from-content-type (%v) / content-type-from-codec-name (%v) not resolved by role", codecFn, nameFn)
 			continue
 		}
 		count++
-		c.Note("%s: handler keys in %s, codec lookup %s, client builder %s", pname, nhd.Name.Name, codecFn.Name(), nameFn.Name())
+		c.Note("%s: handler keys in %s, codec lookup %s, client builder %s", pname, nhd.Name.Name, codecFn.Name(), nameDesc)
 
 		// Collect uses.
-		var hUses, hBare, cUses, cBare, nUses []prefixUse
+		var hUses, hBare, cUses, cBare []prefixUse
 		// handler: map index assignments whose key is built from constants (+ loop variable)
 		w := astx.NewWalker(info, nhd.Body)
 		w.OnNode = func(s *astx.State, n ast.Node) bool {
@@ -325,8 +357,13 @@ func contentTypeCodecInverse(c *core.Ctx) {
 			cUses = append(cUses, prefixUse{prefix: pre, pos: ret, facts: factsOf(s)})
 		})
 		// client name builder
-		nfd := p.Decl(nameFn)
-		astx.ForEachExit(info, nfd.Body, func(s *astx.State, kind astx.ExitKind, ret *ast.ReturnStmt) {
+		var nfdBody *ast.BlockStmt
+		if nameFn != nil {
+			nfdBody = p.Decl(nameFn).Body
+		} else {
+			nfdBody = &ast.BlockStmt{}
+		}
+		astx.ForEachExit(info, nfdBody, func(s *astx.State, kind astx.ExitKind, ret *ast.ReturnStmt) {
 			if ret == nil || len(ret.Results) != 1 {
 				return
 			}
@@ -681,7 +718,12 @@ func procedureSameFn(c *core.Ctx) {
 		if split == nil {
 			c.Undecided("segments/split", xfd.Pos(), "%s does not split its argument on \"/\"", xfd.Name.Name)
 		} else {
-			segmentVar := func(o types.Object) bool {
+			var segmentVarDepth func(o types.Object, depth int) bool
+			segmentVar := func(o types.Object) bool { return segmentVarDepth(o, 0) }
+			segmentVarDepth = func(o types.Object, depth int) bool {
+				if depth > 3 {
+					return false
+				}
 				okAll, any := true, false
 				ast.Inspect(xfd.Body, func(n ast.Node) bool {
 					as, ok := n.(*ast.AssignStmt)
@@ -693,7 +735,16 @@ func procedureSameFn(c *core.Ctx) {
 							continue
 						}
 						any = true
-						ie, ok := astx.Unparen(as.Rhs[i]).(*ast.IndexExpr)
+						rhs := astx.Unparen(as.Rhs[i])
+						if _, isConst := astx.ConstString(info, rhs); isConst {
+							continue // a constant carries nothing of the argument
+						}
+						if ro := astx.ObjOf(info, rhs); ro != nil && ro != arg && ro != o {
+							if _, isVar := ro.(*types.Var); isVar && segmentVarDepth(ro, depth+1) {
+								continue
+							}
+						}
+						ie, ok := rhs.(*ast.IndexExpr)
 						if !ok || astx.ObjOf(info, ie.X) != split {
 							okAll = false
 						}
